@@ -194,7 +194,10 @@ class TableEx(Extractor):
             return out
         if fname == "min":
             items = sorted(args[0], key=lambda r: r.show(400))  # min is symmetric in its arguments
-            return self.ctx.call("min_abs", *items)
+            k = kwargs.get("key")
+            by_abs = isinstance(k, Opaque) and str(k.why).endswith("abs")
+            # selection by magnitude commutes with psi -> -psi; a plain min does not
+            return self.ctx.call("min_abs" if by_abs else "min_signed", *items)
         if fname in ("print", "np.isclose", "numpy.isclose"):
             return Opaque(fname)
         if fname == "abs":
